@@ -83,6 +83,7 @@ def check_c01(rep):
     l2_exhaustive(rep, "ordering, 3 messages", dict(MaxMsg=3, MaxEnv=5 if q else 6, MaxTask=11), "KindsOk", "PolMixed")
     if not q:
         l2_exhaustive(rep, "with subscribers and unencodable messages", dict(MaxMsg=3, MaxEnv=6, MaxTask=12, ConnSubs="TRUE"), "KindsBad", "PolIdem", timeout=2400)
+        l2_sensitivity(rep, "F_ENQ", dict(MaxMsg=2, MaxEnv=5), "KindsOk", "PolMixed", "OnceUnlessFailed")
     l2_replay(rep, 1200 if q else 20000)
     run_generated(rep, "random order scripts", PS.gen_scripts("order", 500 if q else 8000, lib.seed() + 1))
     run_generated(rep, "random mixed scripts", PS.gen_scripts("mixed", 300 if q else 6000, lib.seed() + 2))
@@ -95,6 +96,10 @@ def check_c02(rep):
     q = rep.tier == "quick"
     common(rep)
     l2_exhaustive(rep, "retries and expiry, all policies", dict(MaxMsg=2, MaxEnv=5 if q else 6), "KindsOk", "PolAll")
+    l2_exhaustive(rep, "back-pressure: stalls, expiry during a stalled drain", dict(MaxMsg=2, MaxEnv=5 if q else 6, Stalls="TRUE"), "KindsOk", "PolMixed")
+    if not q:
+        l2_exhaustive(rep, "back-pressure, one connection, 7 environment steps", dict(MaxMsg=2, MaxEnv=7, MaxConn=1, MaxTask=7, H=1, Stalls="TRUE"), "KindsOk", "PolMixed", timeout=2400)
+        l2_sensitivity(rep, "F_CLOCK", dict(MaxMsg=2, MaxEnv=7, MaxConn=1, MaxTask=7, H=1, Stalls="TRUE"), "KindsOk", "PolMixed", "NotAfterExpiry")
     l2_replay(rep, 1200 if q else 20000, kinds="KindsBad")
     run_generated(rep, "random retry scripts", PS.gen_scripts("retry", 600 if q else 10000, lib.seed() + 3))
     eb = [(f"exp-{p}-{s}", p, *G.expiry_boundary(s, p)) for i, s in enumerate(seeds(300 if q else 4000, 2))
@@ -112,6 +117,10 @@ def check_c07(rep):
     l2_exhaustive(rep, "with connection and message subscribers", dict(MaxMsg=1, MaxEnv=5 if q else 6, ConnSubs="TRUE", MsgSubs="TRUE", MaxTask=11), "KindsBad", "PolIdem", timeout=2400)
     l2_exhaustive(rep, "a connection subscriber that sends on connect (as the API layer does)",
                   dict(MaxMsg=3, MaxEnv=5 if q else 6, ConnSubs="TRUE", SubSends="TRUE", MaxTask=12), "KindsOk", "PolIdem", timeout=2400)
+    l2_exhaustive(rep, "fault alphabet with back-pressure stalls", dict(MaxMsg=2, MaxEnv=5 if q else 6, Stalls="TRUE"), "KindsOk", "PolMixed")
+    if not q:
+        l2_sensitivity(rep, "F_DRAIN", dict(MaxMsg=2, MaxEnv=5), "KindsBad", "PolMixed", "UnhandledException")
+        l2_sensitivity(rep, "F_ONE", dict(MaxMsg=1, MaxEnv=5), "KindsOk", "PolIdem", "AtMostOne")
     l2_replay(rep, 1500 if q else 30000)
     run_generated(rep, "random fault scripts", PS.gen_scripts("faults", 700 if q else 15000, lib.seed() + 4))
 
@@ -120,6 +129,9 @@ def check_c15(rep):
     q = rep.tier == "quick"
     common(rep)
     l2_exhaustive(rep, "close at any point", dict(MaxMsg=1, MaxEnv=5 if q else 7), "KindsOk", "PolIdem")
+    l2_exhaustive(rep, "close at any point of a stalled connection", dict(MaxMsg=2, MaxEnv=5 if q else 6, Stalls="TRUE"), "KindsOk", "PolIdem")
+    if not q:
+        l2_sensitivity(rep, "F_CLOSE", dict(MaxMsg=1, MaxEnv=5), "KindsOk", "PolIdem", "ClosedIsFinal")
     l2_replay(rep, 1000 if q else 15000)
     run_generated(rep, "random close/reopen scripts", PS.gen_scripts("close", 500 if q else 8000, lib.seed() + 5))
     sa = [(f"shut-{p}-{s}", p, *G.shutdown_at(s, p)) for i, s in enumerate(seeds(500 if q else 6000, 3))
@@ -134,6 +146,9 @@ def check_c16(rep):
     common(rep)
     # queue bound scaled to 2 in the model (only the length matters): overflow is reachable exhaustively
     l2_exhaustive(rep, "queue bound scaled to 2", dict(MaxMsg=4, MaxEnv=5 if q else 6, QCap=2, MaxTask=12), "KindsOk", "PolMixed")
+    l2_exhaustive(rep, "queue bound scaled to 2, with back-pressure stalls", dict(MaxMsg=3, MaxEnv=5 if q else 6, QCap=2, MaxTask=12, Stalls="TRUE"), "KindsOk", "PolMixed")
+    if not q:
+        l2_sensitivity(rep, "F_CAP", dict(MaxMsg=3, MaxEnv=6, QCap=2, MaxTask=12, Stalls="TRUE"), "KindsOk", "PolMixed", "QueueBound")
     l2_replay(rep, 600 if q else 8000)
     run_generated(rep, "random queue scripts", PS.gen_scripts("queue", 400 if q else 8000, lib.seed() + 6))
     qf = [(f"qf-{p}-{s}", p, *G.queue_fill(s, p)) for i, s in enumerate(seeds(400 if q else 6000, 4))
@@ -147,3 +162,18 @@ def check_c16(rep):
 def check_c13(rep):
     from . import p_segments
     p_segments.check(rep)
+
+
+def l2_sensitivity(rep, flag, over, kinds, pols, expect, timeout=1500):
+    """Vacuity guard: with the modelled repair (or re-read of the clock) switched off, the model must
+    break the named clause / invariant; otherwise the exhaustive runs would not be exercising it."""
+    o = dict(over)
+    o[flag] = "FALSE"
+    res = L2.model_check(o, kinds, pols, timeout=timeout)
+    rep.add_tlc({"states": res["states"], "transitions": res["transitions"]})
+    got = expect in res["invariants_violated"] or expect == res["clause"]
+    rep.part(f"SocketImpl sensitivity: {flag}=FALSE must violate {expect}", constants=o, violated=res["invariants_violated"],
+             clause=res["clause"], states=res["states"], as_expected=got)
+    if not got:
+        rep.machinery.append(f"SocketImpl with {flag}=FALSE does not violate {expect} (got {res['invariants_violated']} {res['clause']}): "
+                             f"the model does not exercise the property")
